@@ -10,6 +10,7 @@ from typing import Dict, List, Union, Optional
 # Local imports
 from ...datatype import datatype, AllowArbConfig
 from ...module import Module
+from ...connect import connected_ports
 from ...instance import Instance
 from ... import Slice, Concat, NoConn, PortRef
 from ...bundle import (
@@ -192,7 +193,7 @@ class BundleFlattener(ElabPass):
             THE_CACHE.flat_bundle_ports[entry] = flat
 
         # Replace connections to any connected instances
-        for portref in list(bundle_inst._connected_ports):
+        for portref in connected_ports(bundle_inst):
             self.replace_bundle_conn(
                 inst=portref.inst, portname=portref.portname, flat=flat
             )
@@ -438,7 +439,7 @@ class BundleFlattener(ElabPass):
         bref.resolved = resolved = self.resolve_path(flat_root, Path(path))
 
         if isinstance(resolved, BundleScope):
-            for connected_port in list(bref._connected_ports):
+            for connected_port in connected_ports(bref):
                 self.replace_bundle_conn(
                     inst=connected_port.inst,
                     portname=connected_port.portname,
